@@ -7,6 +7,7 @@ def dispatch (toks : List String) : String :=
   | "C07" :: rest => Poor.Drv.Range.handle rest
   | "C09" :: rest => Poor.Drv.Reader.handle rest
   | "C16" :: rest => Poor.Drv.Token.handle rest
+  | "C14" :: rest => Poor.Drv.Headers.handle rest
   | _ => "bad-op"
 
 partial def loop (h : IO.FS.Stream) (out : IO.FS.Stream) : IO Unit := do
